@@ -271,7 +271,7 @@ DEFOP(patch_apply) {
     bool ref_ok = rfc6902_apply(&ref, w.pending_patch, rwhy);
     struct FreeRef { MVal *&m; ~FreeRef() { mv_free(m); } } fr{ref};
     bool corrupt = w.pending_corrupt;
-    std::string ptxt = mv_dump(w.pending_patch, 300), dtxt = mv_dump(doc, 200);
+    std::string ptxt = mv_dump(w.pending_patch, 700), dtxt = mv_dump(doc, 300);
     int status = cJSONUtils_ApplyPatchesCaseSensitive(doc->c, patch);
     // the document must remain a well-formed tree whatever happened
     size_t budget = 4000000;
